@@ -23,7 +23,7 @@ def seeded(ctx, n):
                 w = rng.choice([[], [1], [mem - 1] if mem > 1 else [1], [mem], [mem + 1], [3, mem, 2], [mem * 3], [1] * 5,
                                 [0], [4, 0], [0, 4], [mem + 2, 0, 0], [1, 0, 1]])
                 scripts.append({"status": rng.choice([0, 200, 201, 404, 429, 500, 501, 502, 502, 503, 504, 504, 505, 599]), "writes": w, "early": False,
-                                "read": rng.choice(["none", "half", "all"]), "mut": rng.choice(["none", "hdr", "url", "hdrslice", "urlfields"])})
+                                "read": rng.choice(["none", "half", "all", "copy", "copyhalf"]), "via": rng.choice(["write", "write", "copy"]), "mut": rng.choice(["none", "hdr", "url", "hdrslice", "urlfields"])})
             for scx in scripts:      # an informational response is always followed by an explicit final status
                 if scx["status"] != 0 and rng.random() < 0.15:
                     scx["early"] = True
